@@ -586,4 +586,108 @@ theorem revert_keeps_only_force_writes_frame (t t' : Track) (hr : revert t = som
 example : ¬ InForce [(0, { parts := [(0, [(1, TV.garbage)])], isNew := false })] 0 0 2 := by
   simp [InForce]
 
+/-! ### revert, whole track: force-written substates hold the force-written value
+
+The force-write set is a map of maps of maps in the real code (`IndexMap` / `IndexMap` /
+`BTreeMap`), i.e. keys are unique at each level (`NodesNodup`, `IMap.Nodup`). -/
+
+theorem applyForcePart_hit (n p : Nat) (part : TPart) (nodes nodes' : Nodes)
+    (hr : applyForcePart nodes n p part = some nodes') (hnd : IMap.Nodup part)
+    (k : Nat) (tv : TV) (hm : (k, tv) ∈ part) : lookupIn nodes' n p k = some tv := by
+  induction part generalizing nodes with
+  | nil => exact absurd hm (by simp)
+  | cons ktv rest ih =>
+    have hnd' := List.pairwise_cons.mp hnd
+    have hr0 := hr
+    simp only [applyForcePart, replaceExisting] at hr
+    split at hr
+    · exact absurd hr (by simp)
+    · rename_i nodes1 h1
+      split at h1
+      · exact absurd h1 (by simp)
+      · simp only [Option.some.injEq] at h1
+        subst h1
+        rcases List.mem_cons.mp hm with heq | hin
+        · subst heq
+          rw [applyForcePart_frame _ _ _ _ _ hr n p k (fun hh =>
+            hh.2.2.elim fun tv' hm' => hnd'.1 _ hm' rfl), lookupIn_putIn]
+          simp
+        · exact ih _ hr hnd'.2 hin
+
+theorem applyForceNode_hit (n : Nat) (parts : List (Nat × TPart)) (nodes nodes' : Nodes)
+    (hr : applyForceNode nodes n parts = some nodes') (hnd : IMap.Nodup parts)
+    (p : Nat) (part : TPart) (hp : (p, part) ∈ parts) (hpn : IMap.Nodup part)
+    (k : Nat) (tv : TV) (hm : (k, tv) ∈ part) : lookupIn nodes' n p k = some tv := by
+  induction parts generalizing nodes with
+  | nil => exact absurd hp (by simp)
+  | cons pp rest ih =>
+    have hnd' := List.pairwise_cons.mp hnd
+    simp only [applyForceNode] at hr
+    split at hr
+    · exact absurd hr (by simp)
+    · rename_i nodes1 h1
+      rcases List.mem_cons.mp hp with heq | hin
+      · subst heq
+        rw [applyForceNode_frame _ _ _ _ hr n p k (fun hh =>
+          hh.2.elim fun part' hm' => hnd'.1 _ hm'.1 rfl)]
+        exact applyForcePart_hit _ _ _ _ _ h1 hpn k tv hm
+      · exact ih _ hr hnd'.2 hin
+
+theorem applyForce_hit (force : Nodes) (nodes nodes' : Nodes)
+    (hr : applyForce nodes force = some nodes') (hnd : NodesNodup force)
+    (n : Nat) (nd : TNode) (hn : (n, nd) ∈ force)
+    (p : Nat) (part : TPart) (hp : (p, part) ∈ nd.parts) (hpn : IMap.Nodup part)
+    (k : Nat) (tv : TV) (hm : (k, tv) ∈ part) : lookupIn nodes' n p k = some tv := by
+  induction force generalizing nodes with
+  | nil => exact absurd hn (by simp)
+  | cons nn rest ih =>
+    have ho := List.pairwise_cons.mp hnd.outer
+    simp only [applyForce] at hr
+    split at hr
+    · exact absurd hr (by simp)
+    · rename_i nodes1 h1
+      rcases List.mem_cons.mp hn with heq | hin
+      · subst heq
+        rw [applyForce_frame _ _ _ hr n p k (fun hh =>
+          hh.elim fun nd' hm' => ho.1 _ hm'.1 rfl)]
+        exact applyForceNode_hit _ _ _ _ h1 (hnd.inner _ (List.mem_cons_self ..)) p part hp hpn
+          k tv hm
+      · exact ih _ hr ⟨ho.2, fun x hx => hnd.inner x (List.mem_cons_of_mem _ hx)⟩ hin
+
+/-- `revert_keeps_force_writes`: after a successful revert every force-written substate is
+tracked with exactly its force-written value. Together with
+`revert_keeps_only_force_writes_frame` this is the whole-track revert clause at the level of
+tracked values: force-written substates keep their value, everything else is reverted. -/
+theorem revert_keeps_force_writes (t t' : Track) (hr : revert t = some t')
+    (hnd : NodesNodup t.force)
+    (n : Nat) (nd : TNode) (hn : (n, nd) ∈ t.force)
+    (p : Nat) (part : TPart) (hp : (p, part) ∈ nd.parts) (hpn : IMap.Nodup part)
+    (k : Nat) (tv : TV) (hm : (k, tv) ∈ part) : lookupIn t'.nodes n p k = some tv := by
+  simp only [revert] at hr
+  split at hr
+  · exact absurd hr (by simp)
+  · rename_i nodes' h1
+    simp only [Option.some.injEq] at hr
+    subst hr
+    exact applyForce_hit _ _ _ h1 hnd n nd hn p part hp hpn k tv hm
+
+/-- non-vacuity: the hypotheses of `revert_keeps_force_writes` are met by a reachable track
+(read, write 5, force-write, overwrite with 6): its force-write set has unique keys, revert
+succeeds, and the force-written value `ReadExistAndWrite(10, Update 5)` is what survives -/
+example :
+    let t := run (Db.empty.set (0, 0) [(1, 10)])
+      [.get 0 0 1, .set 0 0 1 5, .forceWrite 0 0 1, .set 0 0 1 6]
+    t.force = [(0, { parts := [(0, [(1, TV.readExistAndWrite 10 (.update 5))])], isNew := false })]
+    ∧ NodesNodup t.force
+    ∧ (revert t).map (fun t' => lookupIn t'.nodes 0 0 1)
+        = some (some (TV.readExistAndWrite 10 (.update 5))) := by
+  have h1 : (run (Db.empty.set (0, 0) [(1, 10)])
+      [.get 0 0 1, .set 0 0 1 5, .forceWrite 0 0 1, .set 0 0 1 6]).force
+      = [(0, { parts := [(0, [(1, TV.readExistAndWrite 10 (.update 5))])], isNew := false })] := by
+    rfl
+  refine ⟨h1, ?_, by decide⟩
+  show NodesNodup (run _ _).force
+  rw [h1]
+  exact ⟨by simp [IMap.Nodup], by simp [IMap.Nodup]⟩
+
 end Radix.Track
